@@ -676,6 +676,16 @@ def _eval_forward_ref(
         ctx.show_error(f"Syntax error in type annotation: {val}")
         return AnyValue(AnySource.error)
     else:
+        # The nodes of the separately parsed string carry positions relative to the
+        # string; errors must be reported at the annotation's own position in the file.
+        anchor = getattr(ctx, "node", None)
+        for subnode in ast.walk(tree):
+            if anchor is not None and hasattr(anchor, "lineno"):
+                ast.copy_location(subnode, anchor)
+            else:
+                for attr in ("lineno", "col_offset", "end_lineno", "end_col_offset"):
+                    if hasattr(subnode, attr):
+                        delattr(subnode, attr)
         return _type_from_ast(
             tree.body, ctx, is_typeddict=is_typeddict, allow_unpack=allow_unpack
         )
